@@ -174,6 +174,7 @@ func C03Catalogue() []CatCase {
 		"slice-open-hi":   func(g *gen.G) gen.X { lo := g.Int("1"); return g.Slice(g.Ident("a"), &lo, nil) },
 		"interval":        func(g *gen.G) gen.X { return g.Interval("1 day") },
 		"interval-arith":  func(g *gen.G) gen.X { return g.Bin("+", g.Ident("a"), g.Interval("2 hours")) },
+		"interval-quote":  func(g *gen.G) gen.X { return g.Interval("1 day's") },
 		"tuple":           func(g *gen.G) gen.X { return g.Tuple([]gen.X{g.Ident("a"), g.Int("1")}) },
 		"match-against":   func(g *gen.G) gen.X { return g.Match([]gen.X{g.Ident("a")}, g.Str("x"), "") },
 		"match-boolean":   func(g *gen.G) gen.X { return g.Match([]gen.X{g.Ident("a"), g.Ident("b")}, g.Str("+x -y"), "IN BOOLEAN MODE") },
